@@ -5,7 +5,7 @@ import itertools, os, subprocess
 from . import core, engine, gen, t1
 from .core import hexs
 
-THEOREMS = ["C06_sizes_bounded", "C06_to_str_total", "C06_fuel_is_linear", "C06_parse_never_panics", "C06_parse_tree_wellformed", "C06_error_position", "C06_parse_total"]
+THEOREMS = ["C06_sizes_bounded", "C06_to_str_total", "C06_fuel_is_linear", "C06_parse_never_panics", "C06_parse_tree_wellformed", "C06_error_position", "C06_parse_total", "C06_analysis_never_panics"]
 VOCAB = ["a", "é", "€", "𝄞", "\\", "(", ")", "[", "]", "{", "}", "|", "*", "+", "?", ".", "^", "$", "#", "-", ",", ":", "<", ">", "=", "!", "'", " ", "\n",
          "0", "1", "9", "18446744073709551615", "99999999999999999999", "9223372036854775808",
          "(?", "(?:", "(?=", "(?!", "(?<=", "(?<!", "(?>", "(?<n>", "(?P<n>", "(?P=n)", "(?P>n)", "(?(", "(?(1)", "(?#", "(?i)", "(?x)", "(?-", "(?i:", "(?u", "(?-u)",
